@@ -49,3 +49,6 @@ IO/Bounds.vos IO/Bounds.vok IO/Bounds.required_vos: IO/Bounds.v Base/QSum.vos
 IO/Ranges.vo IO/Ranges.glob IO/Ranges.v.beautified IO/Ranges.required_vo: IO/Ranges.v Base/QSum.vo
 IO/Ranges.vio: IO/Ranges.v Base/QSum.vio
 IO/Ranges.vos IO/Ranges.vok IO/Ranges.required_vos: IO/Ranges.v Base/QSum.vos
+IO/Lex.vo IO/Lex.glob IO/Lex.v.beautified IO/Lex.required_vo: IO/Lex.v 
+IO/Lex.vio: IO/Lex.v 
+IO/Lex.vos IO/Lex.vok IO/Lex.required_vos: IO/Lex.v 
